@@ -220,10 +220,29 @@ fn added_active_never_activated(ops: &[Request], a: &SocketAddr) -> bool {
     st.iter().any(|x| x.0 && x.1)
 }
 
+/// plan-level trigger of the recorded finding C08-W2: ActivateListener for a listener that was deactivated before
+fn reactivated_after_deactivation(ops: &[Request], a: &SocketAddr) -> bool {
+    let mut deactivated = [false; 3];
+    for r in ops {
+        match &r.request_type {
+            Some(RequestType::DeactivateListener(l)) if cfggen::to_sockaddr(&l.address) == *a => { let k = l.proxy as usize; if k < 3 { deactivated[k] = true; } }
+            Some(RequestType::ActivateListener(l)) if cfggen::to_sockaddr(&l.address) == *a => { let k = l.proxy as usize; if k < 3 && deactivated[k] { return true; } }
+            _ => {}
+        }
+    }
+    false
+}
+
 fn oracle(p: &Plan, o: &Outcome, master: &ConfigState) -> Vec<Violation> {
     let all_ops = cfggen::ops_from_value(&p.ops).unwrap_or_default();
     let mut v = Vec::new();
-    if let Some(pn) = &o.panicked { v.push(Violation::new("panic", "worker", pn.clone())); }
+    if let Some(pn) = &o.panicked {
+        // C18-T1 (recorded): any connection to a TCP cluster whose proxy_protocol is EXPECT_HEADER panics the worker; the
+        // listening probes of this check connect to every configured listener
+        let expect_cluster = all_ops.iter().any(|r| matches!(&r.request_type, Some(RequestType::AddCluster(c)) if c.proxy_protocol == Some(sozu_command_lib::proto::command::ProxyProtocolConfig::ExpectHeader as i32)));
+        let trig = if expect_cluster && pn.contains("expect proxy protocol") { "tcp_cluster_in_expect_mode" } else { "none" };
+        v.push(Violation::new("panic", format!("worker|{trig}"), pn.clone()));
+    }
     if let Some(a) = &o.aborted { v.push(Violation::new("no_exit", a.clone(), format!("run aborted: {a}"))); }
     if let Some(g) = &o.garbage { v.push(Violation::new("garbage_on_channel", "worker_to_master", g.clone())); }
     // asynchronous events travel on the same channel under the reserved id "EVENT"
@@ -268,11 +287,13 @@ fn oracle(p: &Plan, o: &Outcome, master: &ConfigState) -> Vec<Violation> {
         }
         // behaviour matches view: a listener address accepts connections iff the master's view has it active
         for a in &o.probed {
-            let active = master.http_listeners.get(a).map(|l| l.active).or(master.https_listeners.get(a).map(|l| l.active)).or(master.tcp_listeners.get(a).map(|l| l.active)).unwrap_or(false);
+            // several listener kinds may be configured on one address: it accepts iff any of them is active
+            let kinds: Vec<(&str, bool)> = [("http", master.http_listeners.get(a).map(|l| l.active)), ("https", master.https_listeners.get(a).map(|l| l.active)), ("tcp", master.tcp_listeners.get(a).map(|l| l.active))].into_iter().filter_map(|(k, x)| x.map(|x| (k, x))).collect();
+            let active = kinds.iter().any(|(_, x)| *x);
             let got = o.connectable.contains(a);
             if active != got {
-                let kind = if master.http_listeners.contains_key(a) { "http" } else if master.https_listeners.contains_key(a) { "https" } else if master.tcp_listeners.contains_key(a) { "tcp" } else { "none" };
-                let trig = if added_active_never_activated(&all_ops, a) { "added_with_active_true_never_activated" } else { "none" };
+                let kind = kinds.iter().find(|(_, x)| *x == active).or(kinds.first()).map_or("none", |(k, _)| *k);
+                let trig = if added_active_never_activated(&all_ops, a) { "added_with_active_true_never_activated" } else if reactivated_after_deactivation(&all_ops, a) { "activated_again_after_deactivation" } else { "none" };
                 v.push(Violation::new("behaviour_differs_from_view", format!("listener={kind};view_active={active};accepts={got}|{trig}"), format!("address {a}: master's view active={active}, connect {}", if got { "succeeded" } else { "was refused" })));
             }
         }
